@@ -210,3 +210,53 @@ func verifHarness_C01_v1_smallbuf(n int) {
 	verifAssert(verifEqBytes(raw.Payload, orig), "C01/v1s/payload")
 	verifReach("C01/v1s")
 }
+
+// C01: the (deprecated) OutVersion setting of a Writer only selects the frame type WriteMessage builds; Write accepts
+// any frame, so a writer configured with the OTHER version still emits the full spec bytes of the frame it is given
+// (a router forwarding v2 frames through a writer set to V1, and the reverse).
+func verifHarness_C01_other_outversion(n int, kind int) {
+	compat, seq, sys, comp := verifNondetU8(), verifNondetU8(), verifNondetU8(), verifNondetU8()
+	ck := verifNondetU16()
+	payload := verifNondetBytes(n)
+	orig := make([]byte, n)
+	copy(orig, payload)
+	rec := &verifRecWriter{}
+	var fr Frame
+	var exp []byte
+	w := &Writer{ByteWriter: rec, OutSystemID: 1}
+	if kind == 0 {
+		id := verifNondetU8()
+		fr = &V1Frame{SequenceNumber: seq, SystemID: sys, ComponentID: comp, Checksum: ck,
+			Message: &message.MessageRaw{ID: uint32(id), Payload: payload}}
+		exp = verifSpecV1(seq, sys, comp, id, orig, ck)
+		w.OutVersion = V2
+	} else {
+		id := verifNondetU32()
+		verifAssume(id < 1<<24)
+		f2 := &V2Frame{CompatibilityFlag: compat, SequenceNumber: seq, SystemID: sys, ComponentID: comp, Checksum: ck,
+			Message: &message.MessageRaw{ID: id, Payload: payload}}
+		var link byte
+		var ts uint64
+		var sigb []byte
+		if kind == 2 {
+			link = verifNondetU8()
+			ts = verifNondetU64()
+			verifAssume(ts < 1<<48)
+			sigb = verifNondetBytes(6)
+			sig := new(V2Signature)
+			copy(sig[:], sigb)
+			f2.IncompatibilityFlag = 1
+			f2.SignatureLinkID = link
+			f2.SignatureTimestamp = ts
+			f2.Signature = sig
+		}
+		fr = f2
+		exp = verifSpecV2(byte(kind-1), compat, seq, sys, comp, id, orig, ck, kind == 2, link, ts, sigb)
+		w.OutVersion = V1
+	}
+	verifAssert(w.Initialize() == nil, "C01/ov/writer-init")
+	verifAssert(w.Write(fr) == nil, "C01/ov/write-ok")
+	verifAssert(rec.calls == 1, "C01/ov/single-write-call")
+	verifAssert(verifEqBytes(rec.buf, exp), "C01/ov/spec-layout")
+	verifReach("C01/ov")
+}
